@@ -172,7 +172,7 @@ def run_inproc(files, flags, *, format_command=None, block_black=False, pyprojec
                     # the same without any formatter: what asttokens.util.replace produces
                     import inline_snapshot._rewrite_code as _rc
                     saved = (_rc.format_code, _rc.enforce_formatting)
-                    _rc.format_code = lambda text, filename: text
+                    _rc.format_code = lambda text, filename, *a, **k: text
                     _rc.enforce_formatting = lambda: True
                     try:
                         res["raw_new_code"][nm] = f.new_code()
